@@ -125,11 +125,11 @@ type intSrc[S safecast.IInteger] struct {
 	signed bool
 }
 
-func (s intSrc[S]) Name() string                        { return s.name }
-func (s intSrc[S]) IsFloat() bool                       { return false }
-func (s intSrc[S]) Bits() int                           { return s.bits }
-func (s intSrc[S]) Signed() bool                        { return s.signed }
-func (s intSrc[S]) FromFloat(*big.Float, int) *sample   { return nil }
+func (s intSrc[S]) Name() string                      { return s.name }
+func (s intSrc[S]) IsFloat() bool                     { return false }
+func (s intSrc[S]) Bits() int                         { return s.bits }
+func (s intSrc[S]) Signed() bool                      { return s.signed }
+func (s intSrc[S]) FromFloat(*big.Float, int) *sample { return nil }
 func (s intSrc[S]) FromInt(x *big.Int) *sample {
 	var v S
 	if s.signed {
@@ -157,10 +157,10 @@ type floatSrc[S safecast.IFloat] struct {
 	bits int
 }
 
-func (s floatSrc[S]) Name() string              { return s.name }
-func (s floatSrc[S]) IsFloat() bool             { return true }
-func (s floatSrc[S]) Bits() int                 { return s.bits }
-func (s floatSrc[S]) Signed() bool              { return true }
+func (s floatSrc[S]) Name() string               { return s.name }
+func (s floatSrc[S]) IsFloat() bool              { return true }
+func (s floatSrc[S]) Bits() int                  { return s.bits }
+func (s floatSrc[S]) Signed() bool               { return true }
 func (s floatSrc[S]) FromInt(x *big.Int) *sample { return s.FromFloat(new(big.Float).SetInt(x), 0) }
 func (s floatSrc[S]) FromFloat(x *big.Float, nbr int) *sample {
 	var f64 float64
